@@ -193,9 +193,9 @@ def judge_history(case, every_step, header_maxlen=None):
     out.nontrivial = bool(feats)
     out.cls("ci" if ci else "cs", "len-%d" % len(ops), *sorted(feats))
     out.cls(*sorted({"op-" + op[0] for op in ops}))
-    has_rci = any(op[0] == "rci" for op in ops)
-    if not has_rci and (header_maxlen is None or len(ops) <= header_maxlen):
-        run_history(out, "header", ci, ops, every_step)
+    if header_maxlen is None or len(ops) <= header_maxlen:
+        # on a bare section the positional replacement is `section[i] = item`
+        run_history(out, "header", ci, [["set_ix"] + op[1:] if op[0] == "rci" else op for op in ops], every_step)
     run_history(out, "curves", ci, ops, every_step)
     out.sample = case
     return out
@@ -262,7 +262,7 @@ def long_histories(draw):
         n = len(m.items)
         kinds = ["append", "insert", "insert"]
         if n:
-            kinds += ["del_ix", "del_key", "set", "set"]
+            kinds += ["del_ix", "del_key", "set", "set", "set_ix"]
             if curves_only:
                 kinds += ["rci", "rci"]
         kinds.append("set_absent")
@@ -283,6 +283,8 @@ def long_histories(draw):
             op = ["set", "ZZ", draw(name)]  # documented: appends when the key is absent
         elif k == "move":
             op = ["move", draw(st.integers(0, n - 1)), draw(st.integers(0, n - 1))]
+        elif k == "set_ix":
+            op = ["set_ix", draw(st.integers(0, n - 1)), draw(name)]
         else:
             op = ["rci", draw(st.integers(0, n - 1)), draw(name)]
         sm.model_apply(m, op)
